@@ -159,6 +159,11 @@ func ledgerExec1(op string) string {
 			return "Rskip " + digest(n)
 		}
 		key := b.Body.Transactions[0].In[0]
+		// the injected fault is not an action of the node: the crash explorer (C08) must not take snapshots of the
+		// database while the record is missing
+		hook := dbutil.VerifCommitHook
+		dbutil.VerifCommitHook = nil
+		defer func() { dbutil.VerifCommitHook = hook }()
 		var saved []byte
 		if err := n.db.Update("verif-fault", func(tx *dbutil.Tx) error {
 			v, err := dbutil.GetBucketValue(tx, historydb.UxOutsBkt, key[:])
